@@ -33,7 +33,12 @@ type applyObs struct {
 	outNil  bool
 	errbits string
 	errmsg  string
+	// the slice the PREVIOUS Apply call returned still holds the bytes it held when it was returned
+	prevIntact bool
 }
+
+// the result of the previous Apply call: the slice as returned, and a private copy made at once
+var heldOut, heldCopy []byte
 
 func errBits(err error) string {
 	if err == nil {
@@ -101,6 +106,10 @@ func (a aopts) mkFresh() *jsonpatch.ApplyOptions {
 	return o
 }
 
+// noisyGlobals: while a call with explicit per-call options runs, the package-level defaults hold
+// contrary values (set per case by the single-goroutine streams)
+var noisyGlobals bool
+
 func runApply(doc, patch []byte, a aopts) applyObs {
 	var ob applyObs
 	pending("apply", kv{"flags", b2s(a.neg) + b2s(a.allow) + b2s(a.ensure) + b2s(a.esc)}, kv{"limit", fmt.Sprint(a.limit)},
@@ -122,9 +131,17 @@ func runApply(doc, patch []byte, a aopts) applyObs {
 			jsonpatch.SupportNegativeIndices, jsonpatch.AccumulatedCopySizeLimit = a.neg, a.limit
 			out, err = p.ApplyIndent(doc, a.indent)
 			jsonpatch.SupportNegativeIndices, jsonpatch.AccumulatedCopySizeLimit = sn, sl
+		} else if noisyGlobals {
+			// per-call options must win over the package variables whatever those hold
+			sn, sl := jsonpatch.SupportNegativeIndices, jsonpatch.AccumulatedCopySizeLimit
+			jsonpatch.SupportNegativeIndices, jsonpatch.AccumulatedCopySizeLimit = !a.neg, 3
+			out, err = p.ApplyIndentWithOptions(doc, a.indent, a.mk())
+			jsonpatch.SupportNegativeIndices, jsonpatch.AccumulatedCopySizeLimit = sn, sl
 		} else {
 			out, err = p.ApplyIndentWithOptions(doc, a.indent, a.mk())
 		}
+		ob.prevIntact = bytes.Equal(heldOut, heldCopy)
+		heldOut, heldCopy = out, append([]byte(nil), out...)
 		ob.out = out
 		ob.outNil = out == nil
 		if err != nil {
@@ -177,7 +194,9 @@ type applyCfg struct {
 var allKinds = []string{"add", "add", "remove", "replace", "move", "copy", "test", "test"}
 
 func applyStream(cfg applyCfg, n int) {
+	defer func() { noisyGlobals = false }()
 	for i := 0; i < n; i++ {
+		noisyGlobals = chance(0.25)
 		a := aopts{neg: chance(0.6), esc: chance(0.5)}
 		a.allow = chance(cfg.allow)
 		a.ensure = chance(cfg.ensure)
@@ -361,6 +380,9 @@ func emitApply(stream string, doc []byte, ops []string, patch []byte, a aopts, e
 	fields := []kv{{"stream", stream}, {"flags", b2s(a.neg) + b2s(a.allow) + b2s(a.ensure) + b2s(a.esc)}, {"limit", fmt.Sprint(a.limit)},
 		{"indent", hx([]byte(a.indent))}, {"patch", hx(patch)}, {"doc", hx(doc)},
 		{"dec", b2s(ob.decOK)}, {"status", ob.status}, {"out", hx(ob.out)}, {"outnil", b2s(ob.outNil)}, {"errbits", ob.errbits}}
+	if ob.decOK && (ob.status == "ok" || ob.status == "err") && !ob.prevIntact {
+		fields = append(fields, kv{"prevbroken", "1"})
+	}
 	if ob.status == "err" && ops != nil {
 		fi, pb := failIndex(doc, ops, a)
 		fields = append(fields, kv{"failidx", fmt.Sprint(fi)}, kv{"prefixbits", pb})
@@ -550,6 +572,9 @@ func genMergePatch(doc interface{}, g genOpts, depth int) string {
 	var parts []string
 	used := map[string]bool{}
 	n := rng.Intn(4)
+	if chance(0.15) {
+		n = 4 + rng.Intn(5) // a patch object much larger than its counterpart
+	}
 	keys := make([]string, 0, len(m))
 	for k := range m {
 		keys = append(keys, k)
@@ -810,6 +835,20 @@ func decodeStream(n int, exhaustive bool) {
 			ops = append(ops, op)
 		}
 		b := []byte("[" + strings.Join(ops, ",") + "]")
+		if chance(0.06) {
+			// total length at (or next to) the sizes in which a streaming decoder reads its input, with
+			// or without data after the array
+			L := int(pick64(512, 1536, 3584, 7680)) + int(pick64(0, 0, 0, -1, 1))
+			if len(b) < L {
+				pad := strings.Repeat(pick(" ", " ", "\n", "\t"), L-len(b))
+				if chance(0.5) {
+					b = append(append([]byte("["), pad...), b[1:]...) // white space inside
+				} else {
+					b = append(b, pad...) // white space after the array
+				}
+			}
+			b = append(b, pick("", "]", "x", "[]", " x", "\n{}", "}", ",", "null")...)
+		}
 		if chance(0.15) {
 			b = mutate(b)
 		}
@@ -1122,6 +1161,10 @@ func stdcmpStream(n int) {
 			emit("stdcmp", kv{"what", "dynamic"}, kv{"in", hx(b)}, kv{"status", st}, kv{"same", b2s(same)}, kv{"ours", hx(o1)}, kv{"std", hx(o2)})
 			continue
 		}
+		if chance(0.2) {
+			typedNumberCase()
+			continue
+		}
 		t := genStructType(2)
 		v := reflect.New(t)
 		fillValue(v.Elem(), 2)
@@ -1212,6 +1255,48 @@ func refold(b []byte) []byte {
 	return out
 }
 
+// typedNumberCase: number literals at the edges of the fixed-size numeric kinds (and at float32
+// rounding midpoints) decoded into typed targets by both libraries
+var edgeNumbers = []string{"3.4028235e+38", "3.4028234663852886e+38", "3.4028235677973366e+38", "3.4028236e+38", "-3.4028235e+38", "1e39",
+	"1.00000005960464477539062500000001", "1.00000017881393432617187499999999", "1.0000000596046448", "16777217", "0.1", "1e-46", "1.4e-45", "7e-46",
+	"127", "128", "-128", "-129", "255", "256", "-1", "65535", "65536", "32767", "32768", "9223372036854775807", "9223372036854775808", "-9223372036854775808",
+	"18446744073709551615", "18446744073709551616", "1.0", "1e2", "1E+2", "0.5", "-0", "1.5", "2147483648", "4294967295", "4294967296"}
+var numericKinds = []reflect.Type{reflect.TypeOf(float32(0)), reflect.TypeOf(float64(0)), reflect.TypeOf(int8(0)), reflect.TypeOf(uint8(0)),
+	reflect.TypeOf(int16(0)), reflect.TypeOf(uint16(0)), reflect.TypeOf(int32(0)), reflect.TypeOf(uint32(0)), reflect.TypeOf(int64(0)), reflect.TypeOf(uint64(0)), reflect.TypeOf(int(0))}
+
+func typedNumberCase() {
+	et := numericKinds[rng.Intn(len(numericKinds))]
+	var lits []string
+	for j := 0; j < 1+rng.Intn(3); j++ {
+		lits = append(lits, edgeNumbers[rng.Intn(len(edgeNumbers))])
+	}
+	var t reflect.Type
+	var text string
+	switch rng.Intn(3) {
+	case 0:
+		t = reflect.SliceOf(et)
+		text = "[" + strings.Join(lits, ",") + "]"
+	case 1:
+		t = reflect.MapOf(reflect.TypeOf(""), et)
+		var parts []string
+		for j, l := range lits {
+			parts = append(parts, fmt.Sprintf(`"k%d":%s`, j, l))
+		}
+		text = "{" + strings.Join(parts, ",") + "}"
+	default:
+		t = reflect.StructOf([]reflect.StructField{{Name: "F", Type: et, Tag: `json:"f"`}, {Name: "G", Type: et, Tag: `json:"g,string"`}})
+		text = fmt.Sprintf(`{"f":%s,"g":"%s"}`, lits[0], lits[len(lits)-1])
+	}
+	w1, w2 := reflect.New(t), reflect.New(t)
+	var d1, d2 error
+	st := guarded(func() { d1 = ijson.Unmarshal([]byte(text), w1.Interface()) })
+	d2 = stdjson.Unmarshal([]byte(text), w2.Interface())
+	b1, _ := stdjson.Marshal(w1.Interface())
+	b2, _ := stdjson.Marshal(w2.Interface())
+	same := st == "ok" && (d1 == nil) == (d2 == nil) && bytes.Equal(b1, b2)
+	emit("stdcmp", kv{"what", "struct"}, kv{"in", hx([]byte(t.String() + " <- " + text))}, kv{"status", st}, kv{"same", b2s(same)}, kv{"ours", hx(b1)}, kv{"std", hx(b2)}, kv{"back1", hx(b1)}, kv{"back2", hx(b2)})
+}
+
 // sameJSON: equal as JSON values, numbers by float64 (the two libraries spell some floats differently)
 func sameJSON(a, b []byte) bool {
 	var x, y interface{}
@@ -1294,12 +1379,33 @@ type call struct {
 	opt   aopts
 }
 
+// slices returned by the calls of the current history, with private copies made when they were returned
+var heldRes, heldResCopy [][]byte
+
+func hold(b []byte) {
+	if len(heldRes) > 64 {
+		heldRes, heldResCopy = heldRes[:0], heldResCopy[:0]
+	}
+	heldRes = append(heldRes, b)
+	heldResCopy = append(heldResCopy, append([]byte(nil), b...))
+}
+
+func resultsIntact() bool {
+	for i := range heldRes {
+		if !bytes.Equal(heldRes[i], heldResCopy[i]) {
+			return false
+		}
+	}
+	return true
+}
+
 func (c call) run() string {
 	switch c.kind {
 	case "apply":
 		var out []byte
 		var err error
 		st := guarded(func() { out, err = c.patch.ApplyIndentWithOptions(c.a, c.opt.indent, c.opt.mk()) })
+		hold(out)
 		return st + ":" + errBits(err) + b2s(err != nil) + ":" + hx(out)
 	case "equal":
 		var r bool
@@ -1464,6 +1570,9 @@ func historyStream(n int) {
 			res[i] = c.run()
 			if mutated < 0 && !sameSnap(snap, snapshot(p)) {
 				mutated = i
+			}
+			if mutated < 0 && !resultsIntact() {
+				mutated = i // a slice returned by an earlier call was overwritten
 			}
 		}
 		// the same calls again, in reverse order
